@@ -479,8 +479,12 @@ func applyDeltaProblem(t *rapid.T, b *opBuild, class string, p protocol.Protocol
 	case "delta-empty-patches":
 		b.Delta["patches"] = []interface{}{}
 	case "delta-invalid-patch":
+		badID := rapid.SampledFrom(badIDs).Draw(t, "invalidID") // the one constraint violated; everything else about the patch is in order
 		b.Delta["patches"] = append(append([]interface{}{}, b.Delta["patches"].([]interface{})...), rapid.SampledFrom([]interface{}{
-			map[string]interface{}{"action": "add-public-keys", "publicKeys": []interface{}{map[string]interface{}{"id": "bad id", "type": tJWK2020, "publicKeyJwk": docJWK(pool()[ktP256][0])}}},
+			map[string]interface{}{"action": "add-public-keys", "publicKeys": []interface{}{map[string]interface{}{"id": badID, "type": tJWK2020, "publicKeyJwk": docJWK(pool()[ktP256][0])}}},
+			map[string]interface{}{"action": "remove-public-keys", "ids": []interface{}{"ok", badID}},
+			map[string]interface{}{"action": "remove-services", "ids": []interface{}{badID}},
+			map[string]interface{}{"action": "add-services", "services": []interface{}{map[string]interface{}{"id": badID, "type": "t", "serviceEndpoint": "https://s.example"}}},
 			map[string]interface{}{"action": "remove-public-keys", "ids": []interface{}{}},
 			map[string]interface{}{"action": "add-services", "services": []interface{}{map[string]interface{}{"id": "s", "type": "t"}}},
 			map[string]interface{}{"action": "ietf-json-patch", "patches": []interface{}{map[string]interface{}{"op": "remove", "path": "/publicKey/0"}}},
